@@ -2,7 +2,7 @@
 import re
 from collections import deque
 
-from gsa.cfg import Fn, S, is_call, walk, lit
+from gsa.cfg import Fn, S, SN, is_call, walk, lit
 from gsa import rules as R
 
 EXPL = ("narrow: structural necessary conditions of container correctness, on every CFG path of the container instantiations "
@@ -28,6 +28,101 @@ def run(ctx):
     variants(ctx, fx)
     returns(ctx)
     optional_(ctx, fx)
+    iterator_reseat(ctx, fx)
+    two_level(ctx, fx)
+
+
+def iterator_reseat(ctx, fx):
+    ctx.rule("C14.vector-backed.iterator-reseated",
+             "containers that sit on a std::vector (flat_map): a positional insert / emplace / erase on the vector invalidates "
+             "the iterator passed to it (the vector may reallocate, and elements shift), so on every path that iterator variable "
+             "is assigned again (normally from the call's result) before it is read, returned or dereferenced")
+    n = 0
+    for f in fx.functions:
+        if f["kind"] == "pattern" or not f["file"].endswith("galois/FlatMap.h"):
+            continue
+        fn = None
+        for b in f.get("blocks", []):
+            for e in b["ev"]:
+                if e.get("k") == "call" and e.get("name") in ("insert", "emplace", "erase") and \
+                        S(e.get("recv") or {}).endswith("_data") and e.get("a"):
+                    a0 = e["a"][0]
+                    while isinstance(a0, dict) and a0.get("k") in ("ctor", "cast") and (a0.get("a") or a0.get("e")):
+                        a0 = a0["a"][0] if a0.get("k") == "ctor" else a0["e"]
+                    if not (isinstance(a0, dict) and a0.get("k") == "ref" and a0.get("vk") == "local"):
+                        continue
+                    x = a0["n"]
+                    fn = fn or ctx.fn(f)
+                    n += 1
+                    pos = [p for p, e2 in fn.events(lambda e2: e2 is e)]
+                    if not pos:
+                        continue
+                    kill = lambda e2, x=x: (e2.get("k") == "assign" and e2.get("lp") == x and e2.get("op") == "=") or \
+                        (e2.get("k") == "call" and e2.get("op") == "=" and S(e2.get("recv") or {}) == x) or \
+                        (e2.get("k") == "decl" and e2.get("n") == x)
+
+                    def uses(e2, x=x):
+                        if kill(e2):
+                            return False
+                        return any(isinstance(y, dict) and y.get("k") == "ref" and y.get("n") == x for y in walk(e2))
+                    hits, _ = fn.search([fn.after(pos[0])], stop=lambda e2: kill(e2) or uses(e2))
+                    bad = [q for q in hits if uses(fn.ev(q))]
+                    ctx.ob("C14.vector-backed.iterator-reseated", f["qn"], not bad,
+                           "`%s` is passed to _data.%s at line %s and used again at line %s without being re-seated from the "
+                           "call's result: after a reallocation it dangles" % (
+                               x, e.get("name"), e.get("l"), fn.ev(bad[0]).get("l") if bad else "?"),
+                           "%s:%s" % (f["file"], e.get("l")), "%s@%s" % (x, e.get("l")), fnkey=f["key"])
+    ctx.floor("positional vector mutations in flat_map", n, 2)
+
+
+def two_level(ctx, fx):
+    ctx.rule("C14.twolevel.backward-boundary",
+             "TwoLevelIteratorA (forward, bidirectional and random-access instantiations): seek_backward() positions at the end of "
+             "the first non-empty inner range at or before the current outer position, so whenever it is used to leave a range "
+             "the outer iterator is stepped back first (safe_decrement(m_outer, ..)) on every path; the base iterator is moved "
+             "backwards inside a range only by an amount a preceding comparison bounds by the number of elements in front of it; "
+             "jump_backward crosses a range boundary only through decrement()")
+    TL = "galois::TwoLevelIteratorA::"
+    fs = [f for f in fx.functions if f["qn"].startswith(TL) and f["kind"] == "inst"]
+    names = {f["name"] for f in fs}
+    if not {"decrement", "jump_backward", "seek_backward", "jump_forward"} <= names:
+        ctx.broken("TwoLevelIteratorA: decrement / jump_backward / seek_backward / jump_forward are not all instantiated (%s)" % sorted(names))
+        return
+    n = 0
+    for f in fs:
+        if f["name"] not in ("decrement", "jump_backward"):
+            continue
+        fn = ctx.fn(f)
+        al = fn.aliases()
+        sb = is_call(name="seek_backward")
+        step = lambda e: e.get("k") == "call" and e.get("name") == "safe_decrement" and e.get("a") and S(e["a"][0], al).endswith("m_outer")
+        det = []
+        if fn.reaches_without(sb, step):
+            det.append("seek_backward() reachable without stepping the outer iterator back first: it jumps to the end of the "
+                       "CURRENT inner range")
+        if f["name"] == "jump_backward":
+            # negative advance of the base iterator only under a bound n <= k
+            adv = lambda e: e.get("k") == "call" and e.get("name") == "advance" and len(e.get("a", [])) == 2 and \
+                S(e["a"][1], al).startswith("-")
+            for p, e in fn.events(adv):
+                amount = S(e["a"][1], al)[1:]
+                if amount in ("k",):
+                    continue        # moving to the first element of the range: k is the distance to it by definition
+                bound = lambda t, amount=amount: isinstance(t, dict) and t.get("k") == "bin" and t.get("op") in ("<=", "<", ">=", ">") and \
+                    amount in (S(t.get("l"), al), S(t.get("r"), al)) and "k" in (S(t.get("l"), al), S(t.get("r"), al))
+                ge = fn.guard_edges(lambda t: bound(t) and SN(t, al) in ("(%s <= k)" % amount,), True) | \
+                    fn.guard_edges(lambda t: bound(t) and SN(t, al) in ("(k < %s)" % amount,), False)
+                hits, _ = fn.search([fn.entry_state()], stop=lambda x: x is e, edge_ok=lambda b, i, s2: (b, i) not in ge)
+                if hits:
+                    det.append("the base iterator is moved back by %s (line %s) on a path where %s may exceed the elements in front "
+                               "of it" % (amount, e.get("l"), amount))
+            kd = fn.defs().get("k") or None
+            kinit = [S(e2.get("init"), al) for _, e2 in fn.events(lambda e2: e2.get("k") == "decl" and e2.get("n") == "k")]
+            if not kinit or any("+ 1" in x for x in kinit) or not all("distance(" in x for x in kinit):
+                det.append("k is %s, expected the number of elements in front of the current one (distance(begin, base))" % kinit)
+        n += 1
+        ctx.ob("C14.twolevel.backward-boundary", f["qn"], not det, "; ".join(det), fn.loc(), f["key"][-60:], fnkey=f["key"])
+    ctx.floor("TwoLevelIteratorA decrement/jump_backward instantiations", n, 2)
 
 
 # ---------------------------------------------------------------- LINK
